@@ -194,6 +194,8 @@ class World(object):
         self.crash_at = None
         self.crash_stmt = None
         self.stmt_left = None
+        self.crash_chan = None
+        self.chan_commit_count = 0
         self.crashed = False
         self.hard_kill = False       # validity.py: die for real (os._exit) at the crash point instead of simulating it
         self.want_pre_boot = False   # validity.py: after a simulated crash, dump the files before the reboot
@@ -337,6 +339,10 @@ class World(object):
         except Exception as e:
             snap = {"unreadable": repr(e)}
         self.log.append([which, snap])
+        if which == "C":
+            self.chan_commit_count += 1
+            if self.crash_chan is not None and self.chan_commit_count == self.crash_chan:
+                self._die()
         if self.crash_at is not None and self.commit_count == self.crash_at:
             if self.crash_stmt:
                 self.stmt_left = self.crash_stmt     # die some statements after this commit (on_statement)
@@ -513,7 +519,16 @@ class World(object):
         self.log.append(ent)
 
     def graph(self):
-        """subscription graph and per-connection flags, read off the real objects"""
+        """subscription graph and per-connection flags, read off the real objects.  These are private attributes: a
+        change may rename or drop one.  That is a divergence from the model's connection state (component `conns` /
+        `subs`), not a reason for the driver to stop -- the monitors and the two-run checks do not use them."""
+        try:
+            return self._graph()
+        except AttributeError as e:
+            self.anomalies.append("object graph unreadable: %s" % (e,))
+            return [["unreadable", str(e), -1]], [[c, "unreadable"] for c in sorted(self.conns)]
+
+    def _graph(self):
         subs = []
         srv = self.server
         pid = {id(p): c for c, p in self.conns.items()}
@@ -528,11 +543,23 @@ class World(object):
                     else:
                         subs.append([hx(app_id), hx(mid), pid[id(h)]])
         conns = []
+        fl = lambda v: v if v == "absent" else bool(v)
+        class _P(object):
+            """a connection's attributes; one that no longer exists reads as the string "absent" (never equal to the model's value)"""
+            def __init__(self, p):
+                self.__dict__["p"] = p
+            def __getattr__(self, n):
+                return getattr(self.__dict__["p"], n, "absent")
         for c, p in self.conns.items():
+            p = _P(p)
             app = p._app
+            if app == "absent":
+                app = None
             if app is not None and srv._apps.get(app._app_id) is not app:
                 self.anomalies.append("STALE: connection %d holds an unregistered AppNamespace %r" % (c, app._app_id))
             mb = p._mailbox
+            if mb == "absent":
+                mb = None
             if mb is not None:
                 reg = srv._apps.get(mb._app_id)
                 if reg is None or reg._mailboxes.get(mb._mailbox_id) is not mb:
@@ -542,10 +569,10 @@ class World(object):
             conns.append([c,
                           hx(app._app_id) if app is not None else None,
                           hx(p._side) if app is not None else None,
-                          bool(p._did_allocate), bool(p._listening), bool(p._did_claim),
-                          hx(p._nameplate_id), bool(p._did_release),
+                          fl(p._did_allocate), fl(p._listening), fl(p._did_claim),
+                          hx(p._nameplate_id), fl(p._did_release),
                           hx(mb._mailbox_id) if mb is not None else None,
-                          hx(p._mailbox_id), bool(p._did_close)])
+                          hx(p._mailbox_id), fl(p._did_close)])
         return subs, conns
 
     def next_due(self):
@@ -682,6 +709,9 @@ class World(object):
                 base["oracle"] = ev["oracle"]
             exc = None
             m = ev.get("after_stmt")
+            nc = ev.get("n_chan")        # die right after the event's nc-th CHANNEL commit (comparable across configurations)
+            if nc is not None:
+                n, m = (0 if nc == 0 else 10 ** 6), None
             if n == 0 and not m:
                 if base["k"] == "advance":
                     self.t += base["dt"]
@@ -690,6 +720,8 @@ class World(object):
                 self.crash_at = n
                 self.crash_stmt = m or None
                 self.stmt_left = m if (m and n == 0) else None
+                self.crash_chan = nc
+                self.chan_commit_count = 0
                 try:
                     exc = self.do_base(base)
                 except Crash:
@@ -698,6 +730,7 @@ class World(object):
                     self.crash_at = None
                     self.crash_stmt = None
                     self.stmt_left = None
+                    self.crash_chan = None
                 pre = self.log
                 if m:
                     # what the model's `ECrash n` records: the event up to its n-th commit (frames sent between
